@@ -15,7 +15,7 @@ from collections import Counter
 
 import numpy as np
 
-from .. import cover, gen, grospec, ref
+from .. import carrier, cover, gen, grospec, ref
 
 LEVEL = 'exploration'
 JOBS = {'quick': 2, 'thorough': 16}
@@ -24,7 +24,8 @@ REQUIRED_CLASSES = ('layout:blocks', 'layout:alternating', 'layout:same-name-dif
                     'layout:same-name-size-different-atoms', 'layout:single-atom', 'layout:giant', 'layout:digit-names',
                     'layout:resid-wrap', 'layout:constant-name-increasing-number', 'vel:yes', 'vel:no', 'vel:some-atoms-at-rest', 'box:triclinic-lower', 'box:triclinic-general', 'values:full-width-numbers', 'atom-numbers:restarts', 'atom-numbers:arbitrary', 'atom-numbers:offset',
                     'op:index', 'op:negative-index', 'op:slice', 'op:slice-negative-step', 'op:next', 'op:out-of-range',
-                    'object:fresh-never-walked', 'object:walked-completely-before', 'object:view-of-a-system-with-topology')
+                    'object:fresh-never-walked', 'object:walked-completely-before', 'object:view-of-a-system-with-topology',
+                    'carrier:handle', 'carrier:handle-relative-then-chdir', 'carrier:relative-path')
 RULE = ('files: residue layout class x residue sizes 1..12 x 1..400 residues (thorough: up to 5000) x velocities; access '
         'histories of up to 200 operations. Non-trivial: at least 3 residues and at least 2 residue kinds or sizes. '
         'distinct = distinct (layout, velocities, residue-count bucket, history signature)')
@@ -170,8 +171,30 @@ def residue_matches(res, want):
     return None
 
 
+def _decoy():
+    """A complete coordinate file of another system; it waits, under the same bare name as the file of the case, in the
+    directory the process moves to after that file was opened by a relative name."""
+    p = os.path.join(_tmp['dir'], f'decoy{os.getpid()}.gro')
+    if not os.path.exists(p):
+        gen.write_gro(p, 'decoy: another system', [(1, 'DEC', 'D1', 1, (0.5, 0.5, 0.5), None), (2, 'DEC', 'D1', 2, (1.5, 0.5, 0.5), None)],
+                      np.array([2.0, 2.0, 2.0]))
+    return p
+
+
 def run_case(ctx, case):
+    import contextlib
+    with contextlib.ExitStack() as stack:
+        _run_case(ctx, case, stack)
+
+
+def _run_case(ctx, case, stack):
     from gaddlemaps.components import SystemGro
+    kind = carrier.next_kind(ctx)
+
+    def given():
+        # the file as it is handed to the library this time (a path, a relative name, an open handle: see carrier.py);
+        # whatever was handed out before stays as it is until the case ends
+        return stack.enter_context(carrier.carried(path, kind, decoy=_decoy()))
     i, layout = case['i'], case['layout']
     rng = ctx.rng('file', i)
     nres_max = 400 if (ctx.tier == 'quick' or i % 20) else 5000
@@ -204,9 +227,9 @@ def run_case(ctx, case):
     while len(_rest) > 1:
         flag = _rest.pop()
         ctx.hit('values:full-width-numbers' if flag == 'full-width-numbers' else 'atom-numbers:' + flag)
-    w = {'layout': layout, 'n_residues': len(want), 'file_head': open(path).read()[:900]}
+    w = {'layout': layout, 'n_residues': len(want), 'file_head': open(path).read()[:900], 'carrier': kind}
     try:
-        s = SystemGro(path)
+        s = SystemGro(given())
         got_iter = list(s)
     except Exception as exc:  # noqa
         ctx.violation(f'systemgro-raises:{type(exc).__name__}:{layout}', str(exc)[:200], witness=w)
@@ -245,7 +268,7 @@ def run_case(ctx, case):
         del s
         from gaddlemaps.components import System
         try:
-            system = System(path)
+            system = System(given())
             s = system.system_gro
         except Exception as exc:  # noqa
             ctx.violation(f'systemgro-raises:{type(exc).__name__}:{layout}', str(exc)[:200], witness=w)
@@ -269,7 +292,7 @@ def run_case(ctx, case):
     elif i % 2:
         del s
         try:
-            s = SystemGro(path)
+            s = SystemGro(given())
         except Exception as exc:  # noqa
             ctx.violation(f'systemgro-raises:{type(exc).__name__}:{layout}', str(exc)[:200], witness=w)
             return
